@@ -17,7 +17,7 @@ import (
 const m32 = int64(1) << 32
 const half = int64(1) << 31
 
-func fwd(v, w uint32) int64 { return ((int64(w) - int64(v)) % m32 + m32) % m32 } // forward distance v -> w
+func fwd(v, w uint32) int64 { return ((int64(w)-int64(v))%m32 + m32) % m32 } // forward distance v -> w
 
 func refLess(v, w uint32) (ans bool, judged bool) {
 	d := fwd(v, w)
